@@ -125,6 +125,9 @@ type c17Oracle struct {
 	removed map[signature.PublicKey]bool
 	// keyHolders: for every sub-key, the node ids that ever held it.
 	keyHolders map[signature.PublicKey]map[signature.PublicKey]bool
+	// regThresholds: the thresholds a node's claim was given at its last successful registration
+	// (with the runtime descriptors of that moment).
+	regThresholds map[signature.PublicKey]string
 
 	blocks        int
 	regTxs        int
@@ -231,6 +234,7 @@ func (o *c17Oracle) fromGenesis(s *Sim) *c17Snap {
 
 func (o *c17Oracle) Init(s *Sim) *core.Violation {
 	o.ss = c17SessionFor(s.W)
+	o.regThresholds = map[signature.PublicKey]string{}
 	// The simulated consensus engine lets validators vote whose consensus key it knows: make the
 	// consensus keys of the workload's node universe known, so that new validators are not
 	// counted as absent.
@@ -250,6 +254,9 @@ func (o *c17Oracle) Init(s *Sim) *core.Violation {
 		// (the first block's result is compared with it like any other).
 		o.prev = o.fromGenesis(s)
 		o.track(o.prev, nil)
+		for id, rec := range o.prev.nodes {
+			o.regThresholds[id] = strings.Join(c17NodeThresholds(rec.n, o.prev.rts), ",")
+		}
 		return nil
 	}
 	tree, err := ref.TreeAt(s.Height)
@@ -414,7 +421,10 @@ func (o *c17Oracle) judge(m *c17Snap, bt *BuiltTx, d *c17Tx) *c17Verdict {
 		}
 		vd.class = o.classify(m, &n)
 		raw := cbor.Marshal(&sn)
-		vd.apply = func(m *c17Snap) { m.nodes[n.ID] = &c17NodeRec{raw: raw, n: &n} }
+		vd.apply = func(m *c17Snap) {
+			m.nodes[n.ID] = &c17NodeRec{raw: raw, n: &n}
+			o.regThresholds[n.ID] = strings.Join(c17NodeThresholds(&n, m.rts), ",")
+		}
 	case registry.MethodRegisterRuntime:
 		var rt registry.Runtime
 		if cbor.Unmarshal(d.tx.Body, &rt) != nil {
@@ -1082,7 +1092,18 @@ func (o *c17Oracle) checkClaims(s *Sim, tree mkvs.Tree, sn *c17Snap) *core.Viola
 		for _, c := range wk {
 			gt := c17ThresholdStrings(got[staking.StakeClaim(c)])
 			if strings.Join(gt, ",") != strings.Join(w[c], ",") {
-				mine = c17Viol("claims-thresholds", "claims-thresholds "+c17ClaimClass(c), fmt.Sprintf("height %d: account %s claim %s records thresholds %v but the current registrations imply %v", h, a, c, gt, w[c]))
+				fp := "claims-thresholds " + c17ClaimClass(c)
+				if strings.HasPrefix(c, "registry.RegisterNode.") {
+					var id signature.PublicKey
+					if id.UnmarshalText([]byte(strings.TrimPrefix(c, "registry.RegisterNode."))) == nil {
+						if at, ok := o.regThresholds[id]; ok && at == strings.Join(gt, ",") {
+							// The recorded list is the one of the node's last registration: the
+							// runtime's thresholds were updated afterwards.
+							fp += " stale-since-runtime-threshold-update"
+						}
+					}
+				}
+				mine = c17Viol("claims-thresholds", fp, fmt.Sprintf("height %d: account %s claim %s records thresholds %v but the current registrations imply %v", h, a, c, gt, w[c]))
 				break
 			}
 		}
